@@ -266,6 +266,33 @@ def main():
             print(f"VIOLATION property={prop} replay={p}")
             violations += 1
 
+    # ---- 4c''. C20: CallbackInfo.Name identifies the function (declared functions: distinct names)
+    name_cov = None
+    if prop == "C20":
+        ncases = gen.generate_viz(seed, 60 if tier == "quick" else 1500)
+        for c in ncases:
+            c["viz"] = False
+            for f in c["fns"]:
+                if f.get("pool") is not None:
+                    f["callback"] = True
+        ncases, ntraces = common.run_impl_parallel(ncases)
+        seen_cb, wrong = 0, []
+        for c, t in zip(ncases, ntraces):
+            pool_of = {f["id"]: f.get("pool") for f in c["fns"]}
+            for oi, ot in enumerate(t["ops"]):
+                for ev in ot["events"]:
+                    if ev["ev"] == "cb" and pool_of.get(ev["f"]) is not None:
+                        seen_cb += 1
+                        if ev.get("name") != f"main.P{pool_of[ev['f']]}":
+                            wrong.append((c, t, oi, ev))
+        name_cov = dict(histories=len(ncases), callbacks_of_declared_functions=seen_cb, wrong_names=len(wrong))
+        if wrong:
+            c, t, oi, ev = wrong[0]
+            p = write_replay(prop, f"name-{case_hash(c)}", {"property": prop, "meaning": "CallbackInfo.Name does not identify the function that was executed",
+                                                            "operation": oi, "callback": ev, "case": c, "implementation_trace": t})
+            print(f"VIOLATION property={prop} replay={p}")
+            violations += 1
+
     # ---- 4d. C19: Visualize against Dot.v and the registry
     viz_cov = None
     if prop == "C19" and all(f in built for f in ("Dot", "RunViz")):
@@ -370,6 +397,8 @@ def main():
                model_impl_disagreements=len(set(m[0] for m in M)),
                checker_failures=len(V), known_finding_hits=sum(known_hits.values()),
                input_distribution=dist)
+    if name_cov:
+        cov["callback_names"] = name_cov
     if id_cov:
         cov["function_ids"] = id_cov
     if viz_cov:
